@@ -54,6 +54,9 @@ type basicTaskBase struct {
 }
 
 func (t *basicTaskBase) startBasicTask() (err error) {
+	if t.Tci.ControlMode != controlmode.HOOK && t.taskCmd != nil && t.taskCmd.Process != nil && t.taskCmd.ProcessState == nil {
+		return errors.New("basic task command is still running")
+	}
 	t.taskCmd, err = prepareTaskCmd(t.Tci)
 	if err != nil {
 		msg := "cannot build task command"
